@@ -1,13 +1,21 @@
 /-
-  C01 (grammar part) — the token-level parser accepts exactly the grammar.
+  C01 (grammar part) — the token-level parser accepts exactly the grammar.  ALL statements are for every flag
+  combination (`no_location`, `allow_type_system`, `experimental_fragment_variables`); fuel does not appear.
 
   `Matches fl items toks`: the executable matcher of `Spec/Grammar.lean` consumes the WHOLE token list
-  (`SOF … EOF`) along the concrete-syntax view, every `loc` being the span of the node's own tokens.
-  `Item.SpansAll` is the declarative form of the same relation (derivation with spans).
-  Soundness : `parse fl toks = ok t  →  WF fl t ∧ SpansAll fl [SOF, view t, EOF] toks`
-  Completeness (exact): `WF fl t ∧ Matches fl [SOF, view t, EOF] toks → parse fl toks = ok t`
-  for every flag combination; fuel does not appear (the entry points use `toks.length + 1`,
-  `check_width` shows it is always enough).
+  (`SOF … EOF`) along the concrete-syntax view, every `loc` being the span of the node's own tokens;
+  `Item.SpansAll` is its declarative form (`matches_spans`).
+
+  documents  `parse_sound_document`    parse fl toks = ok d → WF fl d ∧ Matches fl [view d] toks
+             `parse_complete_document` WF fl d ∧ Matches fl [view d] toks → parse fl toks = ok d          (exact)
+             `parseDocument_accepts_iff`, `matched_document_unique`
+             `parse_complete_up_to_positions`  WF ∧ position-free match of t.erase → parse = ok t', t'.erase = t.erase
+             `parse_sound_executable` / `parse_complete_executable` / `parseDocument_accepts_iff_executable`
+             `parseDocument_sound_of` / `parseDocument_complete_of` (reductions to the type-system layer)
+  values     `parseValue_sound`, `parseValue_complete`, `parseValue_accepts_iff`
+  types      `parseType_sound`, `parseType_complete`, `parseType_accepts_iff`
+  text       `parse_text_accepts_iff_partial`, `parse_text_result_partial` (lexAll ∘ parser; lexical side = LANG-1)
+  tables     `operationTypeTuple_spec`, … (re-extracted from parser.py on every run)
 -/
 import PyGqlModel.Lemmas.ParseValue
 import PyGqlModel.Lemmas.ParseDocL
